@@ -219,6 +219,44 @@ func (st *State) Arith(op token.Token, x, y *IntV, pos string) *IntV {
 		if !fits(lo, hi, w, signed) {
 			return wrapRes(fmt.Sprintf("(%s)*(%s)", st.ident(x), st.ident(y)))
 		}
+		// (sum of symbols) * symbol: distribute, so that (p+d)*t and p*t + d*t are the same value (the whole product
+		// fits the type, hence no partial wrap is hidden when all summands are non-negative)
+		{
+			tx, ty := st.TermOf(x), st.TermOf(y)
+			sum, single := tx, ty
+			if _, ok := tx.SingleSym(); ok {
+				sum, single = ty, tx
+			}
+			if ss, ok := single.SingleSym(); ok && (len(sum.Syms) > 1 || (len(sum.Syms) == 1 && sum.C != 0)) {
+				sl, sh := st.SymRange(ss)
+				okD := sl >= 0
+				r := termScale(symTerm(ss), sum.C)
+				for i, u := range sum.Syms {
+					ul, uh := st.SymRange(u)
+					if ul < 0 || sum.Coefs[i] < 0 {
+						okD = false
+						break
+					}
+					pl, ok1 := satMul(ul, sl)
+					ph, ok2 := satMul(uh, sh)
+					if !ok1 || !ok2 {
+						okD = false
+						break
+					}
+					a, b := u.Name, ss.Name
+					if a > b {
+						a, b = b, a
+					}
+					m := st.derived(fmt.Sprintf("mul(%s,%s)", a, b), w, signed, pl, ph)
+					r = termAdd(r, st.TermOf(m), sum.Coefs[i])
+				}
+				if okD && sum.C >= 0 {
+					if rl, rh, ok := st.termRange(r); ok && fits(rl, rh, w, signed) {
+						return &IntV{W: w, Signed: signed, T: r}
+					}
+				}
+			}
+		}
 		a, b := st.ident(x), st.ident(y)
 		if a > b {
 			a, b = b, a
@@ -234,6 +272,9 @@ func (st *State) Arith(op token.Token, x, y *IntV, pos string) *IntV {
 		if c, ok := st.ConstOf(y); ok && c > 0 {
 			if cx, ok := st.ConstOf(x); ok {
 				return mkConst(cx/c, w, signed)
+			}
+			if c == 1 {
+				return x
 			}
 			if k, p2 := isPow2(c); p2 && xl >= 0 {
 				return st.ShiftR(x, k)
@@ -458,6 +499,21 @@ func (st *State) ShiftR(x *IntV, k int) *IntV {
 			st.refineSym(sy, xl>>uint(k), xh>>uint(k))
 			return &IntV{W: x.W, Signed: x.Signed, T: t, Bits: r.Bits}
 		}
+	}
+	return r
+}
+
+// ShiftL: x << k for a constant k. When no bit can be shifted out (the value is non-negative and x*2^k fits the type),
+// the result is the exact product, kept next to the bit view (so x<<5 and x*32 are the same value).
+func (st *State) ShiftL(x *IntV, k int) *IntV {
+	r := st.Shift(token.SHL, x, k)
+	if _, isC := st.ConstOf(r); isC || k >= 62 {
+		return r
+	}
+	xl, xh := st.Range(x)
+	_, hi := typeRange(x.W, x.Signed)
+	if xl >= 0 && xh <= hi>>uint(k) {
+		return &IntV{W: x.W, Signed: x.Signed, T: termScale(st.TermOf(x), int64(1)<<uint(k)), Bits: r.Bits}
 	}
 	return r
 }
